@@ -313,7 +313,49 @@ async fn gen_proc(sim: &mut Sim, rng: &mut Prng, stats: &mut Stats, name: &str) 
                     }
                 }
             }
-            54..=69 => {
+            68..=69 => {
+                // the owner rewrites a key with the SAME value under another status, with a complete
+                // handshake in between: TTL -> plain set, tombstone -> set "", set -> TTL, TTL -> TTL
+                let m = rng.below(live_nodes as u64) as usize;
+                if m != n {
+                    stats.bump("op_rewrite_same_value");
+                    let k = pick_key(rng, allow_mb);
+                    let v = *rng.pick(VALUES);
+                    match rng.below(4) {
+                        0 => {
+                            sim.set_with_ttl(n, k, v);
+                            full_handshake(sim, m, n);
+                            sim.set(n, k, v);
+                        }
+                        1 => {
+                            sim.set(n, k, v);
+                            sim.delete_after_ttl(n, k);
+                            full_handshake(sim, m, n);
+                            sim.set(n, k, v);
+                        }
+                        2 => {
+                            sim.set(n, k, v);
+                            sim.delete(n, k);
+                            full_handshake(sim, m, n);
+                            sim.set(n, k, "");
+                        }
+                        _ => {
+                            sim.set(n, k, v);
+                            full_handshake(sim, m, n);
+                            sim.set_with_ttl(n, k, v);
+                        }
+                    }
+                    full_handshake(sim, m, n);
+                    if rng.chance(1, 2) {
+                        // and a third party learns it through the relay only
+                        let t = rng.below(live_nodes as u64) as usize;
+                        if t != n && t != m {
+                            full_handshake(sim, t, m);
+                        }
+                    }
+                }
+            }
+            54..=67 => {
                 // deliver any message from the pool to any node
                 if !pool.is_empty() {
                     let i = rng.below(pool.len() as u64) as usize;
@@ -511,6 +553,17 @@ pub async fn gen_apply(sim: &mut Sim, rng: &mut Prng, stats: &mut Stats, name: &
         sim.decode(&bytes);
         sim.deliver(0, &bytes);
         stats.bump("crafted_deltas");
+        if rng.chance(1, 2) {
+            // whatever the delta left in the node's state, the node must still be able to answer a
+            // peer that knows nothing (it gossips every member it holds) or that is one version behind
+            let entries: Vec<(WId, u64, u64, u64)> = if rng.chance(1, 2) {
+                Vec::new()
+            } else {
+                wids.iter().map(|w| (w.clone(), rng.below(6), rng.below(3), rng.below(8))).collect()
+            };
+            sim.deliver(0, &syn_bytes("c", &entries));
+            stats.bump("syn_after_crafted_delta");
+        }
         if rng.chance(1, 4) {
             sim.tick(*rng.pick(&[1u64, 999, 1000, 1001])).await;
             sim.gc(0);
